@@ -319,8 +319,13 @@ def readlnH (w : World) (f : OFile) : World × Res :=
 /-- output directly after input that did not hit end-of-file (on a stream that can do both) -/
 def badOutput (f : OFile) (d : Bytes) : Bool := f.wr && f.rd && f.last == .input && d != []
 
-/-- input directly after output -/
-def badInput (f : OFile) : Bool := f.wr && f.rd && f.last == .output
+/-- input directly after output: the module calls `fread` / `fgetc` while output is pending. NOT only on an update stream: BLOC's
+    `_r` is computed from the mode string by `find`, so `"wr"`, `"w\0r"`, `"ar"` … have `_r` set on a WRITE-ONLY stream, and
+    `read()` then reaches `fread` there too. glibc 2.36: `_IO_file_xsgetn` with a request of at least one buffer resets the put
+    area (`_IO_setp`) before it notices that the stream cannot read — the bytes written and not yet flushed are thrown away
+    (observed through the real module: `open(p, "wr"); write(1 byte); read(X, 4097); seekend(2^40); position()` = 2^40, not
+    2^40 + 1); a shorter request flushes them first (`_IO_switch_to_get_mode`). Same region of C11 7.21.5.3 p7. -/
+def badInput (f : OFile) : Bool := f.wr && f.last == .output
 
 /-- one method call (or constructor) -/
 def step (w : World) : Op → World × Res
